@@ -38,6 +38,19 @@ type c11Case struct {
 	Decoded bool  `json:"decoded"`
 	ExtNil  bool  `json:"ext_nil"`
 	AlgLess bool  `json:"alg_less,omitempty"` // no signer carries alg (allowed with external data): all signer protected headers are the same empty bucket
+	// PanicAt (position + 1; 0: none): the verifier at that position panics when it is invoked (a key
+	// binding that dies on the data it is handed). Whatever the library does with that, it does not report success.
+	PanicAt int `json:"panic_at,omitempty"`
+	// IndefRaw (constructed messages): every signer's RawProtected is supplied by the caller as another valid
+	// CBOR encoding of its map (indefinite-length map), next to the filled Protected map, and the signatures
+	// are the reference's over exactly those bytes
+	IndefRaw bool `json:"indef_raw,omitempty"`
+}
+
+type panickingVerifier struct{ cose.Verifier }
+
+func (p panickingVerifier) Verify(content, sig []byte) error {
+	panic("verifier: device lost")
 }
 
 type c11Base struct {
@@ -162,6 +175,27 @@ func checkC11(c c11Case) error {
 		sigs[i] = s
 		m.Signatures[i].Signature = s
 	}
+	signProt := func(i int) []byte { return b.env.Sigs[i].ProtContent() }
+	if c.IndefRaw && !c.Decoded && !c.AlgLess {
+		for i := 0; i < n; i++ {
+			content := append(append([]byte{0xbf, 0x01}, rc.Encode(rc.Int(c11Keys[i].Alg), nil)...), 0xff)
+			m.Signatures[i].Headers.RawProtected = rc.Encode(rc.Bytes(content), nil)
+			tbs := refcose.SigStructure(b.env.ProtContent(), content, b.external, b.payload)
+			s := refcose.Sign(c11Keys[i].Alg, c11Keys[i], tbs, []byte{byte(i)})
+			switch c.Slots[i] {
+			case 1:
+				s[len(s)/2] ^= 0x04
+			case 2:
+				s = sigs[i]
+			}
+			sigs[i] = s
+			m.Signatures[i].Signature = s
+		}
+		signProt = func(i int) []byte {
+			return append(append([]byte{0xbf, 0x01}, rc.Encode(rc.Int(c11Keys[i].Alg), nil)...), 0xff)
+		}
+		stats.Class("caller-supplied-raw-protected/indefinite-length-map")
+	}
 	// verifiers
 	nv := n + c.VDelta
 	var vs []cose.Verifier
@@ -179,17 +213,40 @@ func checkC11(c c11Case) error {
 			// half of the table: every key runs other library operations before it looks at its bytes
 			v = reentrantVerifier{v}
 		}
+		if c.PanicAt == i+1 {
+			v = panickingVerifier{v}
+		}
 		vs = append(vs, v)
 		vkeys = append(vkeys, k)
 	}
 	ext := b.external
-	libErr := m.Verify(ext, vs...)
+	var libErr error
+	panicked := false
+	func() {
+		defer func() {
+			if r := recover(); r != nil {
+				if c.PanicAt == 0 {
+					panic(r)
+				}
+				panicked = true
+				libErr = fmt.Errorf("panic: %v", r)
+			}
+		}()
+		libErr = m.Verify(ext, vs...)
+	}()
+	if c.PanicAt != 0 {
+		if libErr == nil {
+			return finding("verifies-though-verifier-panicked", "SignMessage.Verify returns nil for %+v although the verifier at position %d never returned a verdict (it panicked)", c, c.PanicAt-1)
+		}
+		stats.Class(fmt.Sprintf("panicking-verifier/propagated=%v", panicked))
+		return nil
+	}
 	// reference verdict, slot by slot
 	want := nv == n && n >= 1
 	model := want
 	anyBad, moved := false, false
 	for i := 0; i < n && i < nv; i++ {
-		tbs := refcose.SigStructure(b.env.ProtContent(), b.env.Sigs[i].ProtContent(), ext, b.payload)
+		tbs := refcose.SigStructure(b.env.ProtContent(), signProt(i), ext, b.payload)
 		ok := len(sigs[i]) > 0 && (c.AlgLess || vkeys[i].Alg == c11Keys[i].Alg) && refcose.Verify(vkeys[i].Alg, vkeys[i].Public(), tbs, sigs[i])
 		if !ok {
 			want = false
@@ -302,6 +359,22 @@ func TestC11_Table(t *testing.T) {
 						judge(t, "c11", c, checkC11)
 						if cnt%211 == 0 {
 							stats.Sample(fmt.Sprintf("table/n=%d", n), c)
+						}
+						if di == 0 && perm == 0 {
+							// the same cell with every signer's raw protected bytes supplied by the caller
+							c2 := c
+							c2.IndefRaw = true
+							stats.Eval()
+							judge(t, "c11", c2, checkC11)
+						}
+						if vd == 0 && perm == 0 && code < n {
+							// all signatures intact but one (or none): the verifier at each position in turn panics
+							for at := 1; at <= n; at++ {
+								c3 := c
+								c3.PanicAt = at
+								stats.Eval()
+								judge(t, "c11", c3, checkC11)
+							}
 						}
 					}
 				}
